@@ -21,6 +21,9 @@ pub enum DiagPred {
     // One well-formed first line, line within 1..=max_line, col >= 1, no
     // internal identifier, nothing after it except a well-formed trace.
     WellFormed{max_line: u32},
+    // The same for front-end errors, whose unexpected token may be a newline
+    // or the end of input (reported as column 0 of the next line).
+    WellFormedFront{max_line: u32},
     Pos{line: u32, col: u32},
     InFunc(Option<String>),
     Trace(Vec<TraceLine>),
@@ -90,6 +93,17 @@ pub fn check_diag(stderr: &str, path: &str, preds: &[DiagPred]) -> Result<(), St
     let d = parse_stderr(stderr, path)?;
     for p in preds {
         match p {
+            DiagPred::WellFormedFront{max_line} => {
+                if d.line < 1 || d.line > *max_line {
+                    return Err(format!("reported line {} is outside 1..={}", d.line, max_line));
+                }
+                if let Some(w) = internal_identifier(&d.msg) {
+                    return Err(format!("message contains an internal identifier ({w}): {:?}", d.msg));
+                }
+                if d.trace.is_some() {
+                    return Err("front-end error with a stack trace".to_string());
+                }
+            },
             DiagPred::WellFormed{max_line} => {
                 if d.line < 1 || d.line > *max_line {
                     return Err(format!("reported line {} is outside 1..={}", d.line, max_line));
@@ -351,6 +365,7 @@ fn bytes_from(v: &Value) -> Option<Vec<u8>> {
 fn diag_json(d: &DiagPred) -> Value {
     match d {
         DiagPred::WellFormed{max_line} => json!({"well_formed": {"max_line": max_line}}),
+        DiagPred::WellFormedFront{max_line} => json!({"well_formed_front": {"max_line": max_line}}),
         DiagPred::Pos{line, col} => json!({"pos": [line, col]}),
         DiagPred::InFunc(f) => json!({"in_func": f}),
         DiagPred::Trace(t) => json!({"trace": t.iter().map(|x| json!([x.line, x.col, x.func])).collect::<Vec<_>>()}),
@@ -362,6 +377,9 @@ fn diag_json(d: &DiagPred) -> Value {
 fn diag_from(v: &Value) -> Option<DiagPred> {
     if let Some(w) = v.get("well_formed") {
         return Some(DiagPred::WellFormed{max_line: w.get("max_line")?.as_u64()? as u32});
+    }
+    if let Some(w) = v.get("well_formed_front") {
+        return Some(DiagPred::WellFormedFront{max_line: w.get("max_line")?.as_u64()? as u32});
     }
     if let Some(p) = v.get("pos") {
         return Some(DiagPred::Pos{line: p.get(0)?.as_u64()? as u32, col: p.get(1)?.as_u64()? as u32});
